@@ -18,6 +18,14 @@ type solverSpec struct {
 var solvers = []solverSpec{
 	{"z3-new", func(f string, t int) []string { return []string{"z3-new", "-T:" + itoa(t), f} }},
 	{"z3", func(f string, t int) []string { return []string{"z3", "-T:" + itoa(t), f} }},
+	// alternative strategies of the newer z3: quantified heap goals are often
+	// decided at once by one of these where the default configuration loops
+	{"z3-new/noauto", func(f string, t int) []string {
+		return []string{"z3-new", "-T:" + itoa(t), "smt.auto_config=false", f}
+	}},
+	{"z3-new/arith2", func(f string, t int) []string {
+		return []string{"z3-new", "-T:" + itoa(t), "smt.arith.solver=2", f}
+	}},
 	{"cvc5", func(f string, t int) []string {
 		return []string{"cvc5", "--tlimit=" + itoa(t*1000), "--produce-models", f}
 	}},
@@ -132,7 +140,11 @@ func firstLine(s string) string {
 func availableSolvers() []solverSpec {
 	var out []solverSpec
 	for _, s := range solvers {
-		if _, err := exec.LookPath(s.name); err == nil {
+		bin := s.name
+		if i := strings.IndexByte(bin, '/'); i >= 0 {
+			bin = bin[:i]
+		}
+		if _, err := exec.LookPath(bin); err == nil {
 			out = append(out, s)
 		}
 	}
